@@ -3,7 +3,7 @@
    instantiated with the generated tables (C12/Gen_*.v, regenerated on every run). *)
 From Coq Require Import List NArith ZArith Bool.
 From MW Require Import Common.Str C12.Model C12.ListLemmas C12.Proofs C12.Inst C12.ProofsInst.
-From MW Require Import C14.Model C14.Inst C14.ProofsIndex C14.ProofsEscape C14.ProofsImage C14.ProofsFile.
+From MW Require Import C14.Model C14.Inst C14.ProofsIndex C14.ProofsEscape C14.ProofsImage C14.ProofsFile C14.ProofsExpanded C14.ProofsStore C14.ProofsFallback.
 Import ListNotations.
 Open Scope N_scope.
 
@@ -102,6 +102,148 @@ Theorem C14_image_found_by_bare_name : forall nm st en L p P' E1 E4 stored,
   q_image st en stored (E1 ++ P' ++ E4) = Ok (Some (stored_name T)).
 Proof. exact image_found_plain. Qed.
 Print Assumptions C14_image_found_by_bare_name.
+
+(* EXPANDED PAGES (write_expanded_page) in ANY mix with write_pages deliveries (no restriction on the operations before
+   or after).  An expanded page written without revision id is served under its title with the text written, as long as no
+   LATER operation writes the same title without revision id (raw revisions of the title that carry ids, older expansions,
+   other titles do not matter) ... *)
+Theorem C14_expanded_page_by_title : forall loads redirect_of ops1 r ops2 redirects t,
+  let rs := write_ops [] (ops1 ++ WExpanded r :: ops2) in
+  (forall r, In r rs -> loads (r_json r) = Some (r_meta r)) ->
+  Forall (fun r => ~ In c_lf (r_json r) /\ contains sep (r_text r) = false) rs ->
+  title_of r = t -> rev_of r = None ->
+  (forall r', In r' (recs_of ops2) -> title_of r' = t -> rev_of r' <> None) ->
+  dict_get str_eqb t redirects = None ->
+  exists ix, read_revisions loads (file_of rs) = Some ix /\
+             get_page redirect_of ix redirects t None = Some (page_of r).
+Proof. exact expanded_by_title. Qed.
+Print Assumptions C14_expanded_page_by_title.
+
+(* ... through a redirects.json entry pointing to its title ... *)
+Theorem C14_expanded_page_through_redirect : forall loads redirect_of ops1 r ops2 redirects src t rev,
+  let rs := write_ops [] (ops1 ++ WExpanded r :: ops2) in
+  (forall r, In r rs -> loads (r_json r) = Some (r_meta r)) ->
+  Forall (fun r => ~ In c_lf (r_json r) /\ contains sep (r_text r) = false) rs ->
+  title_of r = t -> rev_of r = None ->
+  (forall r', In r' (recs_of ops2) -> title_of r' = t -> rev_of r' <> None) ->
+  dict_get str_eqb src redirects = Some t ->
+  exists ix, read_revisions loads (file_of rs) = Some ix /\
+             get_page redirect_of ix redirects src rev = Some (page_of r).
+Proof. exact expanded_by_redirect. Qed.
+Print Assumptions C14_expanded_page_through_redirect.
+
+(* ... and an expanded page written WITH a revision id is served under that id unless a later operation writes the id again
+   (write_expanded_page does not mark revision ids as seen). *)
+Theorem C14_expanded_page_by_revid : forall loads redirect_of ops1 r ops2 redirects v name,
+  let rs := write_ops [] (ops1 ++ WExpanded r :: ops2) in
+  (forall r, In r rs -> loads (r_json r) = Some (r_meta r)) ->
+  Forall (fun r => ~ In c_lf (r_json r) /\ contains sep (r_text r) = false) rs ->
+  rev_of r = Some v ->
+  (forall r', In r' (recs_of ops2) -> rev_of r' <> Some v) ->
+  dict_get str_eqb name redirects = None ->
+  (r_text r = [] \/ redirect_of (r_text r) = None) ->
+  exists ix, read_revisions loads (file_of rs) = Some ix /\
+             get_page redirect_of ix redirects name (Some v) = Some (page_of r).
+Proof. exact expanded_by_revid. Qed.
+Print Assumptions C14_expanded_page_by_revid.
+
+(* NO LENGTH RESTRICTION.  C14_fs_escape_injective above quantifies over titles of every length; the next two theorems say
+   so explicitly: the file name is never shorter than the title (nothing is cut off), and two titles that share a prefix
+   of ANY length and differ afterwards get different file names. *)
+Theorem C14_fs_escape_no_truncation : forall s, forallb alpha s = true -> ends_nonspace s ->
+  (length s <= length (fs_escape s))%nat.
+Proof. exact fs_escape_no_truncation. Qed.
+Print Assumptions C14_fs_escape_no_truncation.
+
+Theorem C14_long_titles_kept_apart : forall p x y,
+  forallb alpha (p ++ x) = true -> forallb alpha (p ++ y) = true ->
+  ends_nonspace (p ++ x) -> ends_nonspace (p ++ y) ->
+  map us2sp x <> map us2sp y ->
+  fs_escape (p ++ x) <> fs_escape (p ++ y).
+Proof. exact long_titles_kept_apart. Qed.
+Print Assumptions C14_long_titles_kept_apart.
+
+(* EVERY IMAGE ITS OWN BYTES.  Any number of images written into one directory (store_images: a later write to the same
+   file name replaces the content), titles over the property's alphabet of any length, different titles possibly with
+   different bytes: asked under any spelling of its title (C12 grammar), an image comes back with the bytes stored under
+   THAT title. *)
+Theorem C14_image_own_bytes_by_spelling : forall (D : Type) nm st en L n s NS' W p P' E1 C E3 E4 (imgs : list (str * D)) d,
+  In (nm, st) all_sites -> In n (names_of st 6%Z) -> n <> [] -> star_of st 6%Z = Some L ->
+  cv py_upper_char py_lower_char s n -> expands s NS' ->
+  Forall (ws' py_is_ws) W -> Forall (edge' py_is_ws) E1 ->
+  Forall (edge' py_is_ws) (match C with Some E2 => E2 | None => [] end) ->
+  Forall (edge' py_is_ws) E3 -> Forall (edge' py_is_ws) E4 ->
+  tidy py_is_ws p -> expands p P' ->
+  let T := prefix_of L ++ maybe_capitalize py_upper_char (s_capitalize st) p in
+  ~ In 47 T -> In (T, d) imgs ->
+  (forall T' d', In (T', d') imgs -> forallb alpha T' = true /\ ends_nonspace T') ->
+  (forall T' d', In (T', d') imgs -> map us2sp T' = map us2sp T -> d' = d) ->
+  image_bytes (store_images imgs) (q_image st en (map fst imgs) (E1 ++ lead C ++ NS' ++ W ++ c_colon :: E3 ++ P' ++ E4)) = Some d.
+Proof. exact (@image_own_bytes_by_spelling). Qed.
+Print Assumptions C14_image_own_bytes_by_spelling.
+
+Theorem C14_image_own_bytes_by_bare_name : forall (D : Type) nm st en L p P' E1 E4 (imgs : list (str * D)) d,
+  In (nm, st) all_sites -> star_of st 6%Z = Some L ->
+  Forall (edge' py_is_ws) E1 -> Forall (edge' py_is_ws) E4 ->
+  tidy py_is_ws p -> ~ In c_colon p -> expands p P' ->
+  let T := prefix_of L ++ maybe_capitalize py_upper_char (s_capitalize st) p in
+  ~ In 47 T -> In (T, d) imgs ->
+  (forall T' d', In (T', d') imgs -> forallb alpha T' = true /\ ends_nonspace T') ->
+  (forall T' d', In (T', d') imgs -> map us2sp T' = map us2sp T -> d' = d) ->
+  image_bytes (store_images imgs) (q_image st en (map fst imgs) (E1 ++ P' ++ E4)) = Some d.
+Proof. exact (@image_own_bytes_by_bare_name). Qed.
+Print Assumptions C14_image_own_bytes_by_bare_name.
+
+(* Non-vacuity of the length claims: 250 and 2000 shared characters (ASCII, and non-ASCII that is escaped to 5 characters
+   each), different last character before the extension: different file names; a 251-character title keeps 251 characters. *)
+Example C14_long_titles_example :
+  fs_escape (repeat 97 250 ++ [49]) <> fs_escape (repeat 97 250 ++ [50]) /\
+  fs_escape (65 :: repeat 233 2000 ++ [49; 46; 112; 110; 103]) <> fs_escape (65 :: repeat 233 2000 ++ [50; 46; 112; 110; 103]) /\
+  length (fs_escape (repeat 97 250 ++ [49])) = 251%nat.
+Proof. exact long_titles_example. Qed.
+Print Assumptions C14_long_titles_example.
+
+(* THE ENGLISH FALLBACK (nuwiki.py:231-236).  For every bundled site st and the bundled English site en: an image stored
+   under the ENGLISH File-namespace name Len ++ ":" ++ P (P = the capitalised remainder) while no file exists under the
+   site's local name L ++ ":" ++ P is found — at the file written for the English name — under every spelling of the C12
+   grammar a page of the site may use (local / canonical / alias name of namespace 6 in any case, decorations), and under
+   the bare remainder. *)
+Theorem C14_image_found_by_english_name : forall nm st nm_en en L Len n s NS' W p P' E1 C E3 E4 stored,
+  In (nm, st) all_sites -> In (nm_en, en) all_sites -> star_of en 6%Z = Some Len -> s_capitalize en = s_capitalize st ->
+  In n (names_of st 6%Z) -> n <> [] -> star_of st 6%Z = Some L ->
+  cv py_upper_char py_lower_char s n -> expands s NS' ->
+  Forall (ws' py_is_ws) W -> Forall (edge' py_is_ws) E1 ->
+  Forall (edge' py_is_ws) (match C with Some E2 => E2 | None => [] end) ->
+  Forall (edge' py_is_ws) E3 -> Forall (edge' py_is_ws) E4 ->
+  tidy py_is_ws p -> ~ In c_colon p -> expands p P' ->
+  let P := maybe_capitalize py_upper_char (s_capitalize st) p in
+  let T := prefix_of L ++ P in
+  let Ten := prefix_of Len ++ P in
+  ~ In 47 T -> ~ In (stored_name T) (map stored_name stored) -> In Ten stored ->
+  q_image st en stored (E1 ++ lead C ++ NS' ++ W ++ c_colon :: E3 ++ P' ++ E4) = Ok (Some (stored_name Ten)).
+Proof. exact image_found_by_english_name. Qed.
+Print Assumptions C14_image_found_by_english_name.
+
+Theorem C14_image_found_by_bare_name_english : forall nm st nm_en en L Len p P' E1 E4 stored,
+  In (nm, st) all_sites -> In (nm_en, en) all_sites -> star_of en 6%Z = Some Len -> s_capitalize en = s_capitalize st ->
+  star_of st 6%Z = Some L ->
+  Forall (edge' py_is_ws) E1 -> Forall (edge' py_is_ws) E4 ->
+  tidy py_is_ws p -> ~ In c_colon p -> expands p P' ->
+  let P := maybe_capitalize py_upper_char (s_capitalize st) p in
+  let T := prefix_of L ++ P in
+  let Ten := prefix_of Len ++ P in
+  ~ In 47 T -> ~ In (stored_name T) (map stored_name stored) -> In Ten stored ->
+  q_image st en stored (E1 ++ P' ++ E4) = Ok (Some (stored_name Ten)).
+Proof. exact image_found_plain_by_english_name. Qed.
+Print Assumptions C14_image_found_by_bare_name_english.
+
+(* Non-vacuity: German site, "File:X.png" stored (file "FileX.png"), nothing under "Datei:X.png"; "bild:x.png" finds it. *)
+Example C14_fallback_example :
+  exists st en, In ([100; 101], st) all_sites /\ In ([101; 110], en) all_sites /\
+  q_image st en [[70; 105; 108; 101; 58; 88; 46; 112; 110; 103]] [98; 105; 108; 100; 58; 120; 46; 112; 110; 103]
+  = Ok (Some [70; 105; 108; 101; 88; 46; 112; 110; 103]).
+Proof. exact fallback_example. Qed.
+Print Assumptions C14_fallback_example.
 
 (* Non-vacuity: two revisions of "A" written oldest first, the newer text starting with the separator tail; the file is
    read back, title lookup gives revision 9, revision 5 is still served by id. *)
